@@ -384,7 +384,7 @@ func (w *gcWorld) addJunk(dir string) {
 	sort.Strings(partialDirs)
 	for i := 0; i < w.prof.Junk && len(dirs) > 0; i++ {
 		d := dirs[r.Intn(len(dirs))]
-		switch r.Intn(7) {
+		switch r.Intn(8) {
 		case 0: // temp file of a crashed durable write
 			os.WriteFile(filepath.Join(d, fmt.Sprintf(".%03d%09d", r.Intn(256), r.Intn(1e9))), []byte("partial write"), 0o600)
 			w.sim.Probe("junk.tempfile")
@@ -411,6 +411,26 @@ func (w *gcWorld) addJunk(dir string) {
 					os.Remove(full)
 					os.Mkdir(full, 0o755)
 					w.sim.Probe("junk.dir-full")
+					w.broken = true
+				}
+			}
+		case 7: // ... or a symbolic link whose target is missing, empty or a directory
+			if len(partialDirs) > 0 {
+				pd := partialDirs[r.Intn(len(partialDirs))]
+				full := strings.TrimSuffix(pd, ".p")
+				if fi, err := os.Lstat(full); err == nil && fi.Mode().IsRegular() {
+					exec.Command("chattr", "-i", full).Run()
+					os.Remove(full)
+					target := filepath.Join(filepath.Dir(full), ".linktarget-"+filepath.Base(full))
+					switch r.Intn(3) {
+					case 0: // dangling
+					case 1:
+						os.WriteFile(target, nil, 0o644)
+					case 2:
+						os.Mkdir(target, 0o755)
+					}
+					os.Symlink(filepath.Base(target), full)
+					w.sim.Probe("junk.symlink-full")
 					w.broken = true
 				}
 			}
